@@ -91,7 +91,10 @@ func statAll(store *transactionOnly, paths []string) ([]hackpadfs.FileInfo, []er
 	errs := make([]error, len(paths))
 	results, err := getFileRecords(store, paths)
 	if err != nil {
-		return nil, []error{err}
+		for i := range errs {
+			errs[i] = err
+		}
+		return infos, errs
 	}
 	for i := range paths {
 		path := paths[i]
@@ -330,9 +333,10 @@ func (fs *FS) rename(oldFile *file, oldname, newname string) error {
 			return err
 		}
 		txn, err := fs.store.Transaction(TransactionOptions{Mode: TransactionReadWrite})
-		if err == nil {
-			err = fs.setFileTxn(txn, newname, oldFile.fileData, contents)
+		if err != nil {
+			return err
 		}
+		err = fs.setFileTxn(txn, newname, oldFile.fileData, contents)
 		if err == nil {
 			err = fs.setFileTxn(txn, oldname, nil, nil)
 		}
